@@ -237,7 +237,10 @@ class Rig:
             if t not in self.list.trx_list or not m.running:
                 continue
             if m.fh is not None:
-                hop = True          # measuring against a hopping transmitter is a documented gap (no frame number): either window
+                # measuring against a hopping transmitter is a documented gap (no frame number): either window on a frequency of its
+                # mobile allocation; on any other frequency it does not transmit under any reading, whatever it was tuned to before
+                if any(hz in pair for pair in m.fh[2]):
+                    hop = True
                 continue
             if m.tx == hz:
                 hit = True
@@ -547,6 +550,10 @@ def run(budget_s=20.0, seed=0):
         # MEASURE with and without a transmitter on the frequency
         script([(1, "MEASURE", [935200]), (0, "RXTUNE", [890200]), (0, "TXTUNE", [935200]), (1, "MEASURE", [935200]), (0, "POWERON", []), (1, "MEASURE", [935200]),
                 (1, "MEASURE", [935400]), (1, "MEASURE", [890200]), (0, "MEASURE", [935200]), (2, "MEASURE", [935200]), (0, "POWEROFF", []), (1, "MEASURE", [935200])] * 3)
+        # MEASURE after a tuned and running transmitter switched to hopping: its former static frequency is silent unless in the allocation
+        script([(0, "RXTUNE", [890200]), (0, "TXTUNE", [935200]), (0, "POWERON", []), (1, "MEASURE", [935200]),
+                (0, "SETFH", [0, 0, 890400, 935400, 890600, 935600]), (1, "MEASURE", [935200]), (0, "MEASURE", [935200]), (1, "MEASURE", [890200]),
+                (1, "MEASURE", [935400]), (0, "POWEROFF", []), (1, "MEASURE", [935200]), (0, "POWERON", []), (1, "MEASURE", [935200])])
         # delay
         script([(0, "FAKE_TRXC_DELAY", [20]), (0, "NOMTXPOWER", []), (1, "NOMTXPOWER", []), (0, "SETTA", [1]), (0, "FAKE_TRXC_DELAY", [0]), (0, "NOMTXPOWER", []),
                 (0, "FAKE_TRXC_DELAY", [1]), (0, "NOMTXPOWER", []), (0, "FAKE_TRXC_DELAY", [250]), (0, "XYZZY", []), (0, "FAKE_TRXC_DELAY", [0]), (0, "POWERON", [])])
